@@ -101,7 +101,13 @@ def compute_helicity_angles(
         four_momenta: Mapping[int, sp.Expr], node_id: int
     ) -> dict[sp.Symbol, sp.Expr]:
         helicity_angles: dict[sp.Symbol, sp.Expr] = {}
-        child_state_ids = sorted(topology.get_edge_ids_outgoing_from_node(node_id))
+        # Opposite helicity state last: if both children decay further, both define the
+        # angles with the name of the helicity state. The definition then does not
+        # depend on how the intermediate edges of the topology happen to be numbered.
+        child_state_ids = sorted(
+            topology.get_edge_ids_outgoing_from_node(node_id),
+            key=lambda i: (is_opposite_helicity_state(topology, i), i),
+        )
         if all(topology.edges[i].ending_node_id is None for i in child_state_ids):
             state_id = child_state_ids[0]
             if is_opposite_helicity_state(topology, state_id):
